@@ -6,7 +6,8 @@
 // request (see judge). Files: world_test.go (scratch tree, snapshots), gen_test.go (request
 // grammar, generator), drive_test.go (direct / real-server drivers, recorders),
 // clicase_test.go + cli_test.go (the same requests and clauses against a real
-// `desync chunk-server|index-server` process; only with $VERIF_DESYNC_BIN).
+// `desync chunk-server|index-server` process; only with $VERIF_DESYNC_BIN), conc_test.go
+// (concurrent valid uploads against a store that writes late).
 package c15
 
 import (
@@ -44,6 +45,8 @@ type Case struct {
 	// CLI != nil: the case is served by a real `desync chunk-server|index-server` process
 	// (Via "cli"; see cli_test.go). The fields above then describe how that process is configured.
 	CLI *CLICase `json:"cli,omitempty"`
+	// Conc != nil: instead of Reqs, several clients upload valid chunks concurrently (conc_test.go).
+	Conc *ConcCase `json:"conc,omitempty"`
 }
 
 type Req struct {
@@ -513,6 +516,9 @@ func run(c Case) hx.Outcome {
 	if c.CLI != nil {
 		return runCLI(c)
 	}
+	if c.Conc != nil {
+		return runConc(c)
+	}
 	return runWith(c, realHandler)
 }
 
@@ -620,6 +626,9 @@ func finishOutcome(o *hx.Outcome, c Case, descReqs []string, nontrivial bool, ob
 		"nreq": len(c.Reqs), "reqs": descReqs}
 	if c.CLI != nil {
 		desc["cli"] = map[string]any{"auth_via": c.CLI.AuthVia, "cfg_via": c.CLI.CfgVia, "long_flags": c.CLI.Long, "log": c.CLI.Log}
+	}
+	if c.Conc != nil {
+		desc["conc"] = map[string]any{"clients": len(c.Conc.Workers), "procs": c.Conc.Procs, "gate": c.Conc.Gate}
 	}
 	o.Desc = desc
 	kb, _ := json.Marshal(c)
